@@ -37,6 +37,8 @@ def run(ctx, rep):
     rep.rule("A8", "loss expressions built schedule by schedule: the per-schedule partial sum is reset for every schedule before its "
                    "outcomes are added, so that schedule i enters with its own weight", floor=3)
     _a8(ctx, rep)
+    rep.rule("A9", "loss expressions: a loop that accumulates terms over outcomes / schedules visits every term (no `break`)", floor=6)
+    _a9(ctx, rep)
     _a1(ctx, rep)
     _a2(ctx, rep)
     _a5(ctx, rep)
@@ -529,6 +531,26 @@ def _a8(ctx, rep):
                         rep.undecided("A8", f, con, "no initialisation of `%s` found" % acc)
     if n == 0:
         rep.undecided("A8", "quara.interface.cvxpy", "partial sums", "no per-schedule partial sum found")
+
+
+def _a9(ctx, rep):
+    """a sum over outcomes / schedules visits every term: an accumulation loop of a loss expression has no `break`"""
+    n = 0
+    for f in ctx.ix.funcs.values():
+        if not f.module.name.startswith(("quara.interface.cvxpy.qtomography.standard.loss_function", "quara.loss_function")):
+            continue
+        for lp in own_nodes(f.node):
+            if isinstance(lp, ast.For) and any(isinstance(x, ast.AugAssign) for x in ast.walk(lp)):
+                n += 1
+                brk = [x for x in ast.walk(lp) if isinstance(x, ast.Break)]
+                con = "%s: accumulation loop over %s" % (f.name, unparse(lp.iter)[:40])
+                if brk:
+                    rep.violation("A9", f, con, "the loop that accumulates the loss leaves with `break`: every term after the first one that meets the "
+                                                "condition is dropped from the sum (a term that does not contribute must be skipped, not end the loop)", node=brk[0])
+                else:
+                    rep.holds("A9", f, con, "every term is visited", node=lp, nontrivial=False)
+    if n == 0:
+        rep.undecided("A9", "quara.loss_function", "accumulation loops", "none found")
 
 
 def _a7(ctx, rep):
